@@ -86,6 +86,58 @@ func runAdapter(raw json.RawMessage) *caseOut {
 			fail("expiry-not-persisted", fmt.Sprintf("%s: %s (ttl %d s) told the client expires_at=%s but the stored record %s has expires_at=%d", via, what, ttl, expires, id, m.ExpiresAt))
 		}
 	}
+	// ---- boundary ttls through the same create path: whatever instant ends up stored, a mapping whose ExpiresAt is in the past
+	// (a NEGATIVE instant included: now + ttl wraps for an over-large ttl) never routes and its name is reclaimable after the sweep;
+	// every other mapping routes
+	const maxInt64 = int(^uint(0) >> 1)
+	type bcase struct {
+		sub string
+		ttl int
+	}
+	now0 := int(time.Now().Unix())
+	var past, live []string
+	for k, b := range []bcase{{"t-zero", 0}, {"t-neg", -5}, {"t-max", maxInt64}, {"t-max1", maxInt64 - 1}, {"t-nearmax", maxInt64 - now0 - 10}, {"t-wrap1", maxInt64 - now0 + 10}, {"t-big", 1 << 40}} {
+		id, _, err := create(int64(10+k), b.sub, 100+k, b.ttl)
+		if err != nil {
+			fail("create-fails", fmt.Sprintf("%s: create %s.tunnox.net with mapping_ttl=%d fails: %v", via, b.sub, b.ttl, err))
+			continue
+		}
+		m := stored(id)
+		if m == nil {
+			fail("created-mapping-missing", fmt.Sprintf("%s: create %s.tunnox.net (mapping_ttl=%d) reported %s but no record is stored", via, b.sub, b.ttl, id))
+			continue
+		}
+		isPast := m.ExpiresAt != 0 && m.ExpiresAt < int64(now0)-1000
+		pm, lerr := domainproxy.VerifLookup(mod, b.sub+".tunnox.net:80")
+		if isPast {
+			past = append(past, b.sub)
+			if lerr == nil {
+				fail("expired-mapping-routes", fmt.Sprintf("%s: %s.tunnox.net was created by client %d with mapping_ttl=%d; the stored expires_at=%d is in the past (now %d) yet Host %s.tunnox.net:80 is routed to client %d (%s)",
+					via, b.sub, 10+k, b.ttl, m.ExpiresAt, now0, b.sub, pm.TargetClientID, pm.ID))
+			}
+		} else {
+			live = append(live, b.sub)
+			if lerr != nil || pm.TargetClientID != int64(10+k) {
+				fail("live-create-not-routed", fmt.Sprintf("%s: %s.tunnox.net (client %d, mapping_ttl=%d, stored expires_at=%d, now %d) does not route: %v", via, b.sub, 10+k, b.ttl, m.ExpiresAt, now0, lerr))
+			}
+		}
+	}
+	if nb, berr := repo.CleanupExpiredMappings(ctx); berr != nil || nb != len(past) {
+		fail("expired-not-swept", fmt.Sprintf("%s: %d mapping(s) %v carry an expires_at in the past, CleanupExpiredMappings cleaned %d (err=%v)", via, len(past), past, nb, berr))
+	}
+	for _, sub := range past {
+		if idn, _, err := create(77, sub, 177, 3600); err != nil {
+			fail("expired-name-not-reclaimable", fmt.Sprintf("%s: %s.tunnox.net carried an expires_at in the past and the sweep ran, yet client 77 cannot claim it: %v", via, sub, err))
+		} else if pm, lerr := domainproxy.VerifLookup(mod, sub+".tunnox.net"); lerr != nil || pm.ID != idn {
+			fail("reclaimed-name-not-routed", fmt.Sprintf("%s: %s.tunnox.net was re-claimed by client 77 (%s) but does not route to it (%v)", via, sub, idn, lerr))
+		}
+	}
+	for _, sub := range live {
+		if _, _, err := create(78, sub, 178, 3600); err == nil {
+			fail("claimed-name-claimable", fmt.Sprintf("%s: %s.tunnox.net is owned and unexpired, yet client 78 could claim it", via, sub))
+		}
+	}
+
 	id1, exp1, err1 := create(1, "alpha", 11, c.TTL)
 	id2, exp2, err2 := create(2, "beta", 22, 3600)
 	if err1 != nil || err2 != nil {
